@@ -123,6 +123,8 @@ _original_piece_xml = piece_xml
 
 
 def piece_xml(piece):  # noqa: F811 -- adds the "raw" piece used by plain_sheet
+    if piece["k"] == "markup":  # XML written as it is (for faults)
+        return piece["xml"]
     if piece["k"] == "raw":
         text = piece["text"]
         out = []
